@@ -128,4 +128,62 @@ example : selectKey (some 7) [(1, kA), (7, kB)] (some kD) = .ok kB := by rfl
 example : selectKey (some 9) [(1, kA), (7, kB)] (some kD) = .error .noKey := by rfl
 example : selectKey none [(1, kA), (7, kB)] (some kD) = .ok kD := by rfl
 
+/-! Lookup is a function of the token's own identifier and the entries registered under it;
+the composition with derivation histories. -/
+
+/-- Entries registered under other identifiers have no influence on the lookup at all. -/
+theorem selectKey_only_own_entries (i : Nat) (keys : List (Nat × Bytes)) (d : Option Bytes) :
+    selectKey (some i) keys d = selectKey (some i) (keys.filter (fun kv => kv.1 == i)) d := by
+  unfold selectKey
+  have : (keys.filter (fun kv => kv.1 == i)).find? (fun kv => kv.1 == i) = keys.find? (fun kv => kv.1 == i) := by
+    rw [List.find?_filter]; congr 1; funext a; cases (a.1 == i) <;> simp
+  simp only [this]
+
+private theorem unique_of_nodup (i : Nat) (k : Bytes) :
+    ∀ (keys : List (Nat × Bytes)), (keys.map Prod.fst).Nodup → (i, k) ∈ keys →
+      keys.find? (fun kv => kv.1 == i) = some (i, k)
+  | [], _, hm => by cases hm
+  | (a, b) :: rest, hn, hm => by
+    simp only [List.map_cons, List.nodup_cons] at hn
+    by_cases ha : a = i
+    · subst ha
+      rcases List.mem_cons.1 hm with heq | hin
+      · cases heq; simp
+      · exact absurd (List.mem_map.2 ⟨(a, k), hin, rfl⟩) hn.1
+    · rcases List.mem_cons.1 hm with heq | hin
+      · cases heq; exact absurd rfl ha
+      · rw [List.find?_cons_of_neg (by simpa using ha)]
+        exact unique_of_nodup i k rest hn.2 hin
+
+/-- Converse of `selectKey_some_ok` for a key *map* (one entry per identifier, as Go's
+`map[uint32]ed25519.PublicKey`): the non-empty key registered under the token's identifier is the
+one selected, whatever else the map and the default contain. -/
+theorem selectKey_registered (i : Nat) (keys : List (Nat × Bytes)) (d : Option Bytes) (k : Bytes)
+    (hmap : (keys.map Prod.fst).Nodup) (hreg : (i, k) ∈ keys) (hk : k ≠ []) :
+    selectKey (some i) keys d = .ok k := by
+  unfold selectKey
+  simp only [unique_of_nodup i k keys hmap hreg]
+  have : k.isEmpty = false := by cases k <;> simp_all
+  simp [this]
+
+/-- After any derivation history the lookup selects the key it selects for the token as created. -/
+theorem derived_selects_creation_key (S : SigScheme) (e0 e : BiscuitMsg) (ops : List DeriveOp)
+    (hid : ∀ i, e0.rootKeyId = some i → i < 2^32)
+    (h : deriveAll true S e0 ops = .ok e) (keys : List (Nat × Bytes)) (d : Option Bytes) :
+    selectKey e.rootKeyId keys d = selectKey e0.rootKeyId keys d := by
+  rw [rootKeyId_invariant S e0 e ops hid h]
+
+/-- … and the derived token's chain is verified under exactly that key. -/
+theorem derived_accept_under_creation_key (S : SigScheme) (e0 e : BiscuitMsg) (ops : List DeriveOp)
+    (hid : ∀ i, e0.rootKeyId = some i → i < 2^32)
+    (h : deriveAll true S e0 ops = .ok e) (keys : List (Nat × Bytes)) (d : Option Bytes)
+    (hs : sizeGates e = .ok ()) :
+    acceptWithKeys S keys d e =
+      match selectKey e0.rootKeyId keys d with
+      | .error r => .error r
+      | .ok k => verifyChain S k e := by
+  rw [acceptWithKeys_uses_selected S keys d e hs, derived_selects_creation_key S e0 e ops hid h]
+
+example : selectKey (some 7) [(1, kA), (7, kB), (9, kD)] (some kD) = selectKey (some 7) [(7, kB)] none := by rfl
+
 end Biscuit.C16
